@@ -593,6 +593,10 @@ type eventMonitor struct {
 	mu   sync.Mutex
 	evs  []any
 	cond chan struct{}
+	// hold, if set, keeps the monitor inside Receive on its first DeadLetterEvent until it is closed:
+	// whatever the event stream forwards meanwhile piles up in the monitor's inbox
+	hold     chan struct{}
+	holdOnce sync.Once
 }
 
 type markerEvent struct{ N int64 }
@@ -605,6 +609,11 @@ func (m *eventMonitor) Receive(c *actor.Context) {
 	m.mu.Lock()
 	m.evs = append(m.evs, c.Message())
 	m.mu.Unlock()
+	if m.hold != nil {
+		if _, ok := c.Message().(actor.DeadLetterEvent); ok {
+			m.holdOnce.Do(func() { <-m.hold })
+		}
+	}
 }
 
 func (m *eventMonitor) snapshot() []any {
